@@ -603,6 +603,36 @@ func (g *Gen) modifyKind(s *gsession, forced int) {
 		return
 	}
 
+	// a modification that is refused half way: rules of the session are updated / removed in the same message before an
+	// unknown rule id makes the agent refuse it - nothing of it may stay (neither in the datapath nor in what later requests
+	// and the session's end are based on)
+	if forced < 0 && g.Opt.Rejects && len(s.bearers) > 0 && g.R.Intn(9) == 0 {
+		b := s.bearers[g.R.Intn(len(s.bearers))]
+
+		switch k := g.R.Intn(4); {
+		case k == 0:
+			r.RPDR, r.RFAR = []uint16{b.ulPDR}, []uint32{0x7F000001}
+		case k == 1:
+			r.RFAR, r.RQER = []uint32{b.dlFAR}, []uint32{0x7F000002}
+		case k == 2 || b.appQER == 0:
+			np := b.dl
+			if np.Prec < 0xFFFFFFF0 {
+				np.Prec++
+			}
+
+			r.UPDR, r.RPDR = []pfcpx.PDR{np}, []uint16{0xFFEF}
+		default:
+			nq := b.q
+			nq.ULMBR++
+			r.UQER, r.RQER = []pfcpx.QER{nq}, []uint32{0x7F000003}
+		}
+
+		g.Stats["mod_rejected_midway"]++
+		w.Mod(s.peer, r)
+
+		return
+	}
+
 	var removed *bearer
 
 	switch kind {
